@@ -1,6 +1,7 @@
 """C20 — outcome does not depend on how the transport chops or delays bytes."""
 from lib import *  # noqa
 import C10
+import C03
 
 TECHNIQUE = "buffer-tag typestate over the read loop (value-set + typestate dataflow), edge-cut gates for complete-frame delivery, provenance of the consumed byte count in the flush loop, guard-fact checks of the UDP synthetic framing and zero-length/TC handling"
 LEVEL_TEXT = ("static: decides the framing protocol in both directions on every path: (read) after tagging the input buffer an incomplete frame is "
@@ -442,6 +443,41 @@ def r_count(prog, R):
     r.info["primitives"] = n
 
 
+def r_reread(prog, R):
+    r = R.rule("R-C20-REREAD", "a TCP connection is read again within one pass only when the previous read filled the whole buffer: data already buffered is handed to the "
+               "parser before a close seen by a further read can tear the connection (and its input buffer) down", floor=1, analysis="exact guard (guard_delta) on the re-read decision")
+    f = prog.func("read_conn_packets")
+    mf = MustFacts(f, track_calls=False)
+    sets = [(b, i, el) for b, i, el in f.elements() if el["k"] == "asg" and el["e"]["op"] == "=" and is_var(strip(el["e"]["l"]), "read_again") and name_of_const(el["e"].get("r")) == "ARES_TRUE"]
+    if not r.require(bool(sets), "read_conn_packets: read_again = ARES_TRUE not found"):
+        return
+    for b, i, el in sets:
+        k = "re-read of a TCP connection only after a full buffer"
+        # the store must not be reachable for a TCP connection unless count == len holds: check every incoming edge of its block
+        okall = True
+        why = None
+        for pr in b.preds:
+            pblk = f.blocks[pr]
+            br = f.branch(pblk)
+            edge_ok = False
+            if br and br[1] != br[2]:
+                pol = (br[1] == b.id)
+                for c3, p3 in atoms(br[0], pol):
+                    op3, l3, r3 = norm_cmp(c3, p3)
+                    t = render(c3)
+                    if "ARES_CONN_FLAG_TCP" in t and ((op3 == "false") or (op3 == "==" and r3 is not None and const_val(r3) == 0)):
+                        edge_ok = True       # not TCP
+                    if op3 == "==" and r3 is not None and {render(strip(l3)), render(strip(r3))} == {"count", "len"}:
+                        edge_ok = True       # full buffer
+            if not edge_ok:
+                okall = False
+                why = render(br[0]) if br else "unconditional"
+        if okall:
+            r.ok(k, f.loc(el))
+        else:
+            r.viol(k, f.name, f.loc(el), "read_conn_packets decides to read a TCP connection again without 'count == len' (reached through '%s'): when the peer's FIN is readable in the same pass the second read reports the close, handle_conn_error() destroys the input buffer and the answers already received are discarded and re-requested -- the outcome depends on how the stream was cut into reads" % why)
+
+
 def run(prog, R, tier):
     R.assume("ares_buf_tag/rollback/clear/consume implement their documented contracts")
     r_tag(prog, R)
@@ -451,3 +487,6 @@ def run(prog, R, tier):
     r_count(prog, R)
     # a partial TCP write must leave the socket registered for write events, otherwise the tail of the query is never sent
     C10.r_announce(prog, R, rid="R-C20-WRITEINTEREST")
+    r_reread(prog, R)
+    # a write that fails half way must not leave its length prefix / partial message in the connection's out buffer (framing of what follows)
+    C03.r_atomic(prog, R, rid="R-C20-ATOMIC")
